@@ -386,6 +386,8 @@ def fam_C07(seed, n):
         if how == "destroy":
             # sometimes the request that destroys the session still carries a replaced id (in grace)
             req(sc, 0, spec=("val:g%d" % r.randrange(k)) if (k > 0 and r.random() < 0.4) else "jar")
+            if r.random() < 0.12:
+                sc.add("fault del * 0")  # a Destroy whose delete fails must not claim the session is gone
             sc.add("h destroy")
             sc.add("end")
         elif how == "expiry":
